@@ -595,8 +595,10 @@ package compiler
 //@ func (*FilterSchemas).processSchema
 //@   property C05
 //@   requires schema != nil && wf(schema.Objects) && allowList != nil
-//@   modifies schema.Objects
+//@   modifies schema.Objects, schema.EntryPoint, schema.EntryPointType
 //@   ensures  same: result == schema
+//@   ensures  entrypoint: schema.EntryPoint == "" || schema.Objects.records.has(schema.EntryPoint)
+//@   ensures  entrykept: old(schema.EntryPoint) != "" && schema.Objects.records.has(old(schema.EntryPoint)) ==> schema.EntryPoint == old(schema.EntryPoint) && schema.EntryPointType == old(schema.EntryPointType)
 //@   ensures  wf: wf(schema.Objects)
 //@   ensures  kept: forall k: string :: schema.Objects.records.has(k) == (old(schema.Objects.records.has(k)) && allowList.records.has(refKey(old(schema.Objects.records[k]).SelfRef.ReferredPkg, old(schema.Objects.records[k]).SelfRef.ReferredType)))
 //@   ensures  values: forall k: string :: schema.Objects.records.has(k) ==> schema.Objects.records[k] == old(schema.Objects.records[k])
